@@ -21,7 +21,8 @@ LEAN = VERIF / "lean"
 REPO = Path(os.environ.get("VERIF_REPO", "/repo"))
 PY = os.environ.get("VERIF_PYTHON", "/venv/bin/python")
 OUT = VERIF / "out"
-EVIDENCE = VERIF / "evidence"
+# evidence describes /repo itself; runs against a scratch copy (seeded changes) write theirs under out/
+EVIDENCE = VERIF / "evidence" if str(REPO) == "/repo" else VERIF / "out" / "evidence-scratch"
 STD_AXIOMS = {"propext", "Classical.choice", "Quot.sound"}
 FORBIDDEN = re.compile(
     r"\bsorry\b|\badmit\b|^\s*axiom\s|native_decide|bv_decide|implemented_by|\bunsafe\s|maxHeartbeats\s+0"
